@@ -182,6 +182,7 @@ def interactive_job(job):
         out = []
         xf = (lambda it: accept_nth(it, cfg["an"])) if cfg["an"] else (lambda it: it)
         chosen = want["selected"] if want["selected"] else ([want["current"]] if want["current"] is not None else [])
+        q = want["query"]  # histories may edit the query
         if cfg["pq"]:
             out.append(q)
         pressed = ""
@@ -375,6 +376,16 @@ def run(c, replay):
                 for again in ("first+toggle", "first+up+toggle", "last+toggle+toggle", "first+toggle+up+toggle"):
                     jobs.append((cfg, ("select-all", "first") + ("toggle+up",) * k + (again,), "accept"))
             jobs.append((cfg, ("toggle+up", "toggle+up", "toggle+up", "first", "toggle+up", "toggle+up", "up", "toggle"), "accept"))
+        # the selection outlives the matches: select, then edit the query so that fewer / no lines match (nothing under the cursor),
+        # then every accepting event: the selected records are printed in selection order, exit 0
+        if cfg["multi"] and not cfg["wn"]:
+            for sel in (("toggle",), ("up+toggle", "toggle"), ("select-all",), ("toggle", "deselect")):
+                for edit in ("put(zzz)", "put(b)", "put(zzz)+backward-kill-word"):
+                    fs = ["accept", "accept-or-print-query", "accept-non-empty", "print(x)+accept"] + (["key:ctrl-x"] if cfg["expect"] else [])
+                    if not c.thorough and (cfg["print0"] or cfg["an"] == "{2}-{1}"):
+                        fs = fs[:1]
+                    for f in fs:
+                        jobs.append((cfg, sel + (edit,), f))
         # a query that matches nothing: accept prints nothing and exits 1; accept-or-print-query prints the query
         for f in ("accept", "accept-or-print-query", "accept-non-empty", "print-query"):
             jobs.append((dict(cfg, query="zzz"), (), f))
